@@ -610,6 +610,22 @@ func applyNode(info *types.Info, n ast.Node, f *lenFacts) {
 	applyKills(info, n, f)
 	if as, ok := n.(*ast.AssignStmt); ok && len(as.Lhs) == len(as.Rhs) {
 		for i := range as.Lhs {
+			// x := []T{a, b}: a literal without keys has exactly len(elts) elements
+			if cl, ok := ast.Unparen(as.Rhs[i]).(*ast.CompositeLit); ok {
+				if t := info.TypeOf(cl); t != nil {
+					if _, isSlice := types.Unalias(t).Underlying().(*types.Slice); isSlice {
+						keyed := false
+						for _, el := range cl.Elts {
+							if _, isKV := el.(*ast.KeyValueExpr); isKV {
+								keyed = true
+							}
+						}
+						if !keyed {
+							f.addMin(accessPath(info, as.Lhs[i]), len(cl.Elts))
+						}
+					}
+				}
+			}
 			if call, ok := as.Rhs[i].(*ast.CallExpr); ok {
 				if id, ok := call.Fun.(*ast.Ident); ok && id.Name == "make" && len(call.Args) == 2 {
 					if lp, ok := lenArg(info, call.Args[1]); ok {
